@@ -225,10 +225,15 @@ CheckOp(ev) ==
                    ELSE IF \E c \in DOMAIN got[h].v : got[h].v[c] = -778 THEN "C11.dirty"
                    ELSE IF ev.mode = "noinit" /\ h \in x.foot /\ x.pre /\ ~ev.panic THEN "C11.dirty"
                    ELSE Cls(h, "v")
+        \* a wrong component set / value / target after a batch operation violates C06 and the property about
+        \* the store itself (C01: "... their batch forms ..."; C04 for targets)
+        Also(cls, kind) == IF cls = "C06.state" THEN {IF kind = "c" THEN "C01.compset" ELSE IF kind = "t" THEN "C04.target" ELSE "C01.value"}
+                           ELSE IF cls = "C06.unselected" THEN {"C01.other-entity"} ELSE {}
+        VV(cls, kind, d) == {V(cls, d)} \cup {V(c2, d) : c2 \in Also(cls, kind)}
         vEnt == UNION {
-                  (IF got[h].c # exp.ent[h].c THEN {V(Cls(h, "c"), <<h, got[h].c>>)} ELSE {})
-                  \cup (IF got[h].c = exp.ent[h].c /\ got[h].v # exp.ent[h].v THEN {V(VCls(h), <<h, got[h].v>>)} ELSE {})
-                  \cup (IF got[h].c = exp.ent[h].c /\ got[h].t # exp.ent[h].t THEN {V(Cls(h, "t"), <<h, got[h].t>>)} ELSE {})
+                  (IF got[h].c # exp.ent[h].c THEN VV(Cls(h, "c"), "c", <<h, got[h].c>>) ELSE {})
+                  \cup (IF got[h].c = exp.ent[h].c /\ got[h].v # exp.ent[h].v THEN VV(VCls(h), "v", <<h, got[h].v>>) ELSE {})
+                  \cup (IF got[h].c = exp.ent[h].c /\ got[h].t # exp.ent[h].t THEN VV(Cls(h, "t"), "t", <<h, got[h].t>>) ELSE {})
                   : h \in common}
         vLock == IF ev.st.locked # Locked(exp)
                  THEN {V(IF ~x.pre \/ ev.panic THEN "C10.lock-state-changed" ELSE "C07.locked-mismatch", ev.st.locked)}
@@ -306,6 +311,13 @@ CheckOp(ev) ==
                       \cup {V("C17.codec", ev.codec[i]) : i \in {j \in DOMAIN ev.codec :
                                 ev.codec[j][2] # ev.codec[j][1] \/ ev.codec[j][3] # ev.codec[j][1]}}
                       \cup (IF ev.binok # <<8>> THEN {V("C17.malformed-accepted", ev.binok)} ELSE {})
+                      \* the loaded worlds report as many entities as are alive (C02), and are ordinary worlds:
+                      \* reset, they hand out the handles of a fresh world and the zero entity is not alive
+                      \cup (IF ev.used2 # Cardinality(Alive(w)) THEN {V("C02.count", <<"loaded world", ev.used2>>), V("C17.count", ev.used2)} ELSE {})
+                      \cup (IF ev.used3 # Cardinality(Alive(w)) THEN {V("C02.count", <<"second load", ev.used3>>), V("C17.count", ev.used3)} ELSE {})
+                      \cup (IF ev.ret4 # ev.fresh4 THEN {V("C02.handle-after-reset", ev.ret4), V("C16.diverge", <<"loaded world", ev.ret4>>)} ELSE {})
+                      \cup (IF ev.zeroalive THEN {V("C02.zero-alive", ev.ret4)} ELSE {})
+                      \cup (IF ev.used4 # Len(ev.ret4) THEN {V("C02.count", <<"loaded world after reset", ev.used4>>)} ELSE {})
                  ELSE IF ev.op = "DumpLoad" /\ x.def /\ ev.panic THEN {V("C17.load-panicked", ev.msg)}
                  ELSE {}
     IN [def |-> x.def, next |-> exp,
